@@ -117,6 +117,8 @@ def run(pid, check_fn, level, explanation, trusted_base=(), crates=("profirust",
             ctx = Ctx(pid, tier, cfg, prog)
             for c_, names_ in prog.folded.items():
                 ctx.notes.append("normalisation (%s, %s): new private helper(s) read as part of their callers: %s" % (cfg, c_, ", ".join(names_)))
+            if getattr(prog, "desugared", 0):
+                ctx.notes.append("normalisation (%s): %d Option/Result/bool combinator call(s) with a local closure read as the match they stand for" % (cfg, prog.desugared))
             for c_, n_ in getattr(prog, "renamed_params", {}).items():
                 ctx.notes.append("normalisation (%s, %s): %d renamed parameter(s) of known functions read under their pinned names" % (cfg, c_, n_))
             check_fn(ctx)
